@@ -10,10 +10,8 @@
    is the variant in which every reply is decoded into [ret] before [done] is looked
    at (kept for the refutation).
 
-   The transition system has one action, [complete n]: the Send of in-flight node [n]
-   returns, its worker deals with the outcome under the lock and, unless [done] is
-   closed, takes the next node of the queue.  The order of completions is the
-   arrival order of the replies; it is the only nondeterminism. *)
+   The transition system has the workers and the main goroutine of the call as actors
+   (see below); the order of their steps is the only nondeterminism. *)
 From Coq Require Import List String Ascii ZArith NArith Bool Arith.
 Import ListNotations.
 From Onet Require Export Api.Rest.
@@ -67,89 +65,153 @@ Definition quit_of (o : popts) : bool := negb (o_nil o) && o_quit o.
 
 (* ---------- the transition system ----------------------------------------------------- *)
 
+(* Actors: the workers, and the main goroutine of the call.  A worker whose Send
+   returned an error puts it on errChan.  A worker whose Send returned a reply takes the
+   [decoding] mutex and looks at [done]: closed - the reply is dropped; open - it decodes
+   the reply into ret ([ACheck]) and then, still holding the mutex, puts its node on
+   decodedChan and closes [done] ([ACommit]).  The main goroutine takes events from
+   decodedChan ([AMainDecoded]: return the node) and errChan ([AMainErr]); on an error
+   with QuitError it closes [done] and returns the error -- in the code as it is WITHOUT
+   taking the mutex and without looking whether [done] is closed already
+   ([fix_quit = false]).  Closing a closed channel is a Go panic: in a worker it kills
+   the client process ([ps_dead]); in the main goroutine it unwinds the caller
+   ([RCrash]).  With [fix_quit] the main goroutine takes the mutex, closes [done] only
+   if it is open, and returns the node if one was accepted in the meantime. *)
+
 Inductive presult :=
 | RNode (n : nat)                  (* returned (node, nil) *)
 | RError (c : errc) (tok : string) (* returned (nil, err) *)
-| RCrash.                          (* index out of range on errs[0]: nobody to ask *)
+| RCrash.                          (* the call panicked in the caller's goroutine *)
+
+Inductive paction := ACheck (n : nat) | ACommit | AMainErr | AMainDecoded.
 
 Record pstate := { ps_queue : list nat;         (* nodesChan *)
                    ps_infl : list nat;          (* nodes whose Send is running *)
-                   ps_acc : option nat;         (* node sent on decodedChan *)
+                   ps_commit : option nat;      (* the worker that holds [decoding], past the [done] check *)
+                   ps_acc : option nat;         (* the worker that closed [done] *)
+                   ps_decoded : option nat;     (* decodedChan *)
                    ps_ret : option msg;         (* the caller's ret: None = untouched *)
-                   ps_errs : list (errc * string);
+                   ps_pending : list (errc * string);   (* errChan *)
+                   ps_errs : list (errc * string);      (* errs of the main goroutine *)
                    ps_done : bool;              (* [done] is closed *)
                    ps_nbr : nat;                (* nodesNbr *)
-                   ps_result : option (presult * option msg) }.
+                   ps_result : option (presult * option msg);
                                                 (* what the call returned, and ret at that moment *)
+                   ps_dead : bool }.            (* a worker panicked: the process is gone *)
 
 Definition pinit (par : nat) (chosen : list nat) : pstate :=
-  {| ps_queue := skipn par chosen; ps_infl := firstn par chosen; ps_acc := None; ps_ret := None;
-     ps_errs := []; ps_done := false; ps_nbr := List.length chosen;
-     ps_result := match chosen with [] => Some (RCrash, None) | _ => None end |}.
+  {| ps_queue := skipn par chosen; ps_infl := firstn par chosen; ps_commit := None; ps_acc := None;
+     ps_decoded := None; ps_ret := None; ps_pending := []; ps_errs := []; ps_done := false;
+     ps_nbr := List.length chosen;
+     ps_result := match chosen with [] => Some (RCrash, None) | _ => None end;   (* errs[0] of an empty list *)
+     ps_dead := false |}.
 
 Definition remove_nat (x : nat) (l : list nat) : list nat := filter (fun y => negb (Nat.eqb x y)) l.
+
+Definition upd_work (s : pstate) (queue infl : list nat) : pstate :=
+  {| ps_queue := queue; ps_infl := infl; ps_commit := ps_commit s; ps_acc := ps_acc s; ps_decoded := ps_decoded s;
+     ps_ret := ps_ret s; ps_pending := ps_pending s; ps_errs := ps_errs s; ps_done := ps_done s; ps_nbr := ps_nbr s;
+     ps_result := ps_result s; ps_dead := ps_dead s |}.
 
 (* the worker's next iteration of contactNode *)
 Definition take_next (s : pstate) : pstate :=
   if ps_done s then s else
   match ps_queue s with
   | [] => s
-  | n :: q => {| ps_queue := q; ps_infl := (ps_infl s ++ [n])%list; ps_acc := ps_acc s; ps_ret := ps_ret s;
-                 ps_errs := ps_errs s; ps_done := ps_done s; ps_nbr := ps_nbr s; ps_result := ps_result s |}
+  | n :: q => upd_work s q (ps_infl s ++ [n])%list
   end.
 
-(* an error reaches the main goroutine *)
-Definition add_err (quit : bool) (s : pstate) (e : errc * string) : pstate :=
-  let errs := (ps_errs s ++ [e])%list in
-  let returns_now := quit || Nat.eqb (List.length errs) (ps_nbr s) in
-  {| ps_queue := ps_queue s; ps_infl := ps_infl s; ps_acc := ps_acc s; ps_ret := ps_ret s;
-     ps_errs := errs;
-     ps_done := ps_done s || quit;          (* QuitError: main closes [done] *)
-     ps_nbr := ps_nbr s;
-     ps_result := match ps_result s with
-                  | Some r => Some r
-                  | None => if returns_now
-                            then Some (match errs with
-                                       | (c, t) :: _ => if quit then RError (fst e) (snd e) else RError c t
-                                       | [] => RCrash end, ps_ret s)
-                            else None
-                  end |}.
+Definition leave (s : pstate) (n : nat) : pstate := upd_work s (ps_queue s) (remove_nat n (ps_infl s)).
+
+Definition push_err (s : pstate) (e : errc * string) : pstate :=
+  {| ps_queue := ps_queue s; ps_infl := ps_infl s; ps_commit := ps_commit s; ps_acc := ps_acc s; ps_decoded := ps_decoded s;
+     ps_ret := ps_ret s; ps_pending := (ps_pending s ++ [e])%list; ps_errs := ps_errs s; ps_done := ps_done s;
+     ps_nbr := ps_nbr s; ps_result := ps_result s; ps_dead := ps_dead s |}.
 
 Definition set_ret (s : pstate) (r : msg) : pstate :=
-  {| ps_queue := ps_queue s; ps_infl := ps_infl s; ps_acc := ps_acc s; ps_ret := Some r;
-     ps_errs := ps_errs s; ps_done := ps_done s; ps_nbr := ps_nbr s; ps_result := ps_result s |}.
+  {| ps_queue := ps_queue s; ps_infl := ps_infl s; ps_commit := ps_commit s; ps_acc := ps_acc s; ps_decoded := ps_decoded s;
+     ps_ret := Some r; ps_pending := ps_pending s; ps_errs := ps_errs s; ps_done := ps_done s;
+     ps_nbr := ps_nbr s; ps_result := ps_result s; ps_dead := ps_dead s |}.
 
-Definition accept (s : pstate) (n : nat) : pstate :=
-  {| ps_queue := ps_queue s; ps_infl := ps_infl s; ps_acc := Some n; ps_ret := ps_ret s;
-     ps_errs := ps_errs s; ps_done := true; ps_nbr := ps_nbr s;
-     ps_result := match ps_result s with Some r => Some r | None => Some (RNode n, ps_ret s) end |}.
+Definition set_commit (s : pstate) (c : option nat) : pstate :=
+  {| ps_queue := ps_queue s; ps_infl := ps_infl s; ps_commit := c; ps_acc := ps_acc s; ps_decoded := ps_decoded s;
+     ps_ret := ps_ret s; ps_pending := ps_pending s; ps_errs := ps_errs s; ps_done := ps_done s;
+     ps_nbr := ps_nbr s; ps_result := ps_result s; ps_dead := ps_dead s |}.
 
-Definition leave (s : pstate) (n : nat) : pstate :=
-  {| ps_queue := ps_queue s; ps_infl := remove_nat n (ps_infl s); ps_acc := ps_acc s; ps_ret := ps_ret s;
-     ps_errs := ps_errs s; ps_done := ps_done s; ps_nbr := ps_nbr s; ps_result := ps_result s |}.
+(* decodedChan <- node; close(done) *)
+Definition commit (s : pstate) (n : nat) : pstate :=
+  {| ps_queue := ps_queue s; ps_infl := ps_infl s; ps_commit := None; ps_acc := Some n; ps_decoded := Some n;
+     ps_ret := ps_ret s; ps_pending := ps_pending s; ps_errs := ps_errs s; ps_done := true;
+     ps_nbr := ps_nbr s; ps_result := ps_result s;
+     ps_dead := ps_dead s || ps_done s |}.          (* close of a closed channel *)
+
+Definition main_state (s : pstate) (pending errs : list (errc * string)) (done : bool)
+           (res : option (presult * option msg)) : pstate :=
+  {| ps_queue := ps_queue s; ps_infl := ps_infl s; ps_commit := ps_commit s; ps_acc := ps_acc s; ps_decoded := ps_decoded s;
+     ps_ret := ps_ret s; ps_pending := pending; ps_errs := errs; ps_done := done;
+     ps_nbr := ps_nbr s; ps_result := res; ps_dead := ps_dead s |}.
+
+Definition is_none {A} (o : option A) : bool := match o with None => true | Some _ => false end.
 
 (* [want_ret]: the caller passed a non-nil ret.  [out]: what each node does. *)
-Definition complete (decode_every want_ret quit : bool) (out : nat -> pout) (s : pstate) (n : nat) : pstate :=
-  if negb (mem_nat n (ps_infl s)) then s else
-  let s1 := leave s n in
-  match out n with
-  | PErr c t => take_next (add_err quit s1 (c, t))
-  | POk r =>
-      let s2 := if decode_every && want_ret then set_ret s1 r else s1 in
-      if ps_done s2 then take_next s2
-      else accept (if want_ret then set_ret s2 r else s2) n
-  | PBadReply r =>
-      (* the decoder fails before it writes *)
-      if want_ret then
-        (if decode_every then take_next (add_err quit s1 (EDecode, ""))
-         else if ps_done s1 then take_next s1 else take_next (add_err quit s1 (EDecode, "")))
-      else (if ps_done s1 then take_next s1 else accept s1 n)
+Definition pstep (decode_every fix_quit want_ret quit : bool) (out : nat -> pout) (s : pstate) (a : paction) : pstate :=
+  if ps_dead s then s else
+  match a with
+  | ACheck n =>
+      if negb (mem_nat n (ps_infl s)) then s else
+      match out n with
+      | PErr c t => take_next (push_err (leave s n) (c, t))
+      | POk r =>
+          if negb (is_none (ps_commit s)) then s else       (* [decoding] is held by another worker *)
+          let s1 := leave s n in
+          let s2 := if decode_every && want_ret then set_ret s1 r else s1 in
+          if ps_done s2 then take_next s2
+          else set_commit (if want_ret then set_ret s2 r else s2) (Some n)
+      | PBadReply r =>
+          if negb (is_none (ps_commit s)) then s else
+          let s1 := leave s n in
+          if want_ret then
+            (if decode_every then take_next (push_err s1 (EDecode, ""))
+             else if ps_done s1 then take_next s1 else take_next (push_err s1 (EDecode, "")))
+          else (if ps_done s1 then take_next s1 else set_commit s1 (Some n))
+      end
+  | ACommit =>
+      match ps_commit s with
+      | Some n => commit s n
+      | None => s
+      end
+  | AMainDecoded =>
+      match ps_result s, ps_decoded s with
+      | None, Some n => main_state s (ps_pending s) (ps_errs s) (ps_done s) (Some (RNode n, ps_ret s))
+      | _, _ => s
+      end
+  | AMainErr =>
+      match ps_result s, ps_pending s with
+      | None, e :: rest =>
+          if quit then
+            if fix_quit then
+              (if negb (is_none (ps_commit s)) then s          (* waits for [decoding] *)
+               else match ps_decoded s with
+                    | Some n => main_state s rest (ps_errs s) true (Some (RNode n, ps_ret s))
+                    | None => main_state s rest (ps_errs s) true (Some (RError (fst e) (snd e), ps_ret s))
+                    end)
+            else
+              (if ps_done s then main_state s rest (ps_errs s) true (Some (RCrash, ps_ret s))   (* close of a closed channel *)
+               else main_state s rest (ps_errs s) true (Some (RError (fst e) (snd e), ps_ret s)))
+          else
+            let errs := (ps_errs s ++ [e])%list in
+            main_state s rest errs (ps_done s)
+              (if Nat.eqb (List.length errs) (ps_nbr s)
+               then match errs with (c, t) :: _ => Some (RError c t, ps_ret s) | [] => None end
+               else None)
+      | _, _ => s
+      end
   end.
 
-Definition prun (decode_every want_ret quit : bool) (out : nat -> pout) (s : pstate) (arrivals : list nat) : pstate :=
-  fold_left (complete decode_every want_ret quit out) arrivals s.
+Definition prun (decode_every fix_quit want_ret quit : bool) (out : nat -> pout) (s : pstate) (acts : list paction) : pstate :=
+  fold_left (pstep decode_every fix_quit want_ret quit out) acts s.
 
-(* ---------- a schedule from priorities ---------------------------------------------------- *)
+(* ---------- a schedule from the order in which the harness lets the nodes answer -------------- *)
 
 (* position of x in the priority list (earlier = released earlier) *)
 Fixpoint pos_in (x : nat) (prio : list nat) (k : nat) : nat :=
@@ -167,23 +229,49 @@ Fixpoint best (prio : list nat) (l : list nat) : option nat :=
               end
   end.
 
-(* complete the in-flight node of highest priority until nothing is in flight *)
-Fixpoint drive (fuel : nat) (decode_every want_ret quit : bool) (out : nat -> pout) (prio : list nat) (s : pstate) : pstate :=
+(* the main goroutine deals with what has arrived *)
+Definition main_drain (de fq want_ret quit : bool) (out : nat -> pout) (s : pstate) : list paction :=
+  AMainDecoded :: repeat AMainErr (S (List.length (ps_pending s))).
+
+(* Let the in-flight node of highest priority answer; its worker and the main goroutine
+   run at once -- except that the worker of node [hold] (if any) stays between its [done]
+   check and its close until every other node has answered. *)
+Fixpoint drive_acts (fuel : nat) (de fq want_ret quit : bool) (out : nat -> pout) (prio : list nat)
+         (hold : option nat) (s : pstate) : list paction :=
   match fuel with
-  | O => s
-  | S f => match best prio (ps_infl s) with
-           | None => s
-           | Some n => drive f decode_every want_ret quit out prio (complete decode_every want_ret quit out s n)
-           end
+  | O => []
+  | S f =>
+      let others := match ps_commit s with Some h => remove_nat h (ps_infl s) | None => ps_infl s end in
+      match best prio (ps_infl s) with
+      | None =>
+          let acts := ACommit :: main_drain de fq want_ret quit out (pstep de fq want_ret quit out s ACommit) in
+          match ps_commit s with Some _ => acts | None => [] end
+      | Some n =>
+          let held := match hold with Some h => Nat.eqb h n | None => false end in
+          let a1 := if held then [ACheck n] else [ACheck n; ACommit] in
+          let s1 := fold_left (pstep de fq want_ret quit out) a1 s in
+          let a2 := main_drain de fq want_ret quit out s1 in
+          let s2 := fold_left (pstep de fq want_ret quit out) a2 s1 in
+          (* a node that cannot be handled while the mutex is held would come back for ever *)
+          if andb (negb (is_none (ps_commit s))) (mem_nat n (ps_infl s2)) then
+            let acts := ACommit :: main_drain de fq want_ret quit out (pstep de fq want_ret quit out s ACommit) in
+            (acts ++ drive_acts f de fq want_ret quit out prio hold (fold_left (pstep de fq want_ret quit out) acts s))%list
+          else (a1 ++ a2 ++ drive_acts f de fq want_ret quit out prio hold s2)%list
+      end
   end.
 
-(* what the caller observes: the result, ret when the call returned, ret after all workers finished *)
-Record pobs := PObs { po_result : presult; po_ret_first : option msg; po_ret_final : option msg }.
+Definition drive (fuel : nat) (de fq want_ret quit : bool) (out : nat -> pout) (prio : list nat)
+           (hold : option nat) (s : pstate) : pstate :=
+  prun de fq want_ret quit out s (drive_acts fuel de fq want_ret quit out prio hold s).
 
-Definition observe (s : pstate) : option pobs :=
+(* what the caller observes: the result, ret when the call returned, ret after all workers
+   finished, and whether the process died in between *)
+Record pobs := PObs { po_result : option presult; po_ret_first : option msg; po_ret_final : option msg; po_died : bool }.
+
+Definition observe (s : pstate) : pobs :=
   match ps_result s with
-  | Some (r, first) => Some (PObs r first (ps_ret s))
-  | None => None
+  | Some (r, first) => PObs (Some r) first (ps_ret s) (ps_dead s)
+  | None => PObs None None (ps_ret s) (ps_dead s)
   end.
 
 (* ---------- callInterfaceFunc for both kinds of handler ---------------------------------- *)
